@@ -16,6 +16,9 @@ import time_machine
 
 import common as C
 
+import logging
+logging.disable(logging.CRITICAL)
+
 _loop: Optional[asyncio.AbstractEventLoop] = None
 
 
